@@ -98,7 +98,7 @@ def run_unit(unit_name, repo='/repo', workdir=None, rlimit=None, extra_args=None
 
 
 MISSING_RE = re.compile(r"cannot find (?:value|function|type|struct|tuple struct|constant|static|struct, variant or union type|function, tuple struct or tuple variant|trait) `([A-Za-z_][A-Za-z0-9_]*)`")
-MISSING_ASSOC_RE = re.compile(r"no (?:method|function or associated item|associated item|associated function or constant) named `([A-Za-z_][A-Za-z0-9_]*)` found for (?:struct|enum|reference|type)? ?`?&?(?:mut )?(?:code::)?([A-Za-z_][A-Za-z0-9_]*)")
+MISSING_ASSOC_RE = re.compile(r"no (?:method|function or associated item|associated item|associated function or constant) named `([A-Za-z_][A-Za-z0-9_]*)` found for [a-z ]*`?&?(?:mut )?(?:code::)?([A-Za-z_][A-Za-z0-9_]*)")
 UNDECLARED_RE = re.compile(r"use of undeclared type `([A-Za-z_][A-Za-z0-9_]*)`")
 
 
